@@ -24,9 +24,11 @@ class Hooks(object):
 
 
 class Run(object):
-    def __init__(self, sv, kinds, nworkers):
-        """kinds: list of request kinds [{jr, notif, valid}] one per handler (1-based ids)."""
+    def __init__(self, sv, kinds, nworkers, dks=None):
+        """kinds: list of request kinds [{jr, notif, valid}] one per handler (1-based ids); dks: per handler "default" or
+        "custom" (the dispatch function handed to _marshaled_dispatch)."""
         self.sv, self.kinds, self.nworkers = sv, kinds, nworkers
+        self.dks = list(dks) if dks else ["default"] * len(kinds)
         S = self.S = detsched.Sched()
         H = self.H = Hooks()
         H.srcfile = None
@@ -105,6 +107,11 @@ class Run(object):
             return "done-%d" % h
         return fn
 
+    def custom(self, method, params):
+        """A custom dispatch function (method, params), as SimpleJSONRPCDispatcher documents it."""
+        h = int(method.rsplit("_", 1)[1])
+        return self.make_fn(h)(*params)
+
     def oid(self, obj):
         i = self.objid.get(id(obj))
         if i is None:
@@ -175,7 +182,7 @@ class Run(object):
         S.yield_(("call", h))
         S.emit("call", h=h)
         try:
-            out = self.d._marshaled_dispatch(self.body(h))
+            out = self.d._marshaled_dispatch(self.body(h), self.custom if self.dks[h - 1] == "custom" else None)
             if out == "":
                 form = "none"
             else:
@@ -195,7 +202,7 @@ class Run(object):
         ev = []
         for e in self.S.events:
             ev.append({"thr": e["thr"], "k": e["k"], "obj": e.get("obj", 0), "val": e.get("val", ""), "h": e.get("h", 0), "st": e["st"]})
-        r = {"cfg": {"sv": self.sv, "kinds": self.kinds, "nworkers": self.nworkers, "nh": len(self.kinds)}, "init": self.init_snap,
+        r = {"cfg": {"sv": self.sv, "kinds": self.kinds, "nworkers": self.nworkers, "nh": len(self.kinds), "dks": self.dks}, "init": self.init_snap,
              "end": end, "ev": ev}
         r.update(kw)
         self.S.kill_all()
@@ -203,11 +210,11 @@ class Run(object):
         return r
 
 
-def run_plan(sv, kinds, nworkers, plan, rnd=None, policy="low"):
+def run_plan(sv, kinds, nworkers, plan, rnd=None, policy="low", dks=None):
     """plan: dict step index -> thread idx to switch to (a preemption); a negative idx fires the idle time-out of that
     (blocked) thread.  Default policy: keep running the current thread while it is enabled, else the enabled thread with
     the lowest ("low") or highest ("high": pool workers first) id.  rnd: random schedule instead."""
-    R = Run(sv, kinds, nworkers)
+    R = Run(sv, kinds, nworkers, dks)
     R.start()
     S = R.S
     cur = None
@@ -250,7 +257,7 @@ def run_plan(sv, kinds, nworkers, plan, rnd=None, policy="low"):
     return R.result(end, plan=sorted(plan.items()) if plan else [], policy=policy), choices
 
 
-def explore(sv, kinds, nworkers, bound, maxruns, rnd, policy="low"):
+def explore(sv, kinds, nworkers, bound, maxruns, rnd, policy="low", dks=None):
     """All schedules with at most `bound` preemptions (breadth first, capped at maxruns), then random ones."""
     out, seen = [], set()
     frontier = [{}]
@@ -259,7 +266,7 @@ def explore(sv, kinds, nworkers, bound, maxruns, rnd, policy="low"):
         for plan in frontier:
             if len(out) >= maxruns:
                 break
-            tr, choices = run_plan(sv, kinds, nworkers, plan, policy=policy)
+            tr, choices = run_plan(sv, kinds, nworkers, plan, policy=policy, dks=dks)
             key = "|".join("%s:%s:%s" % (e["thr"], e["k"], e["obj"]) for e in tr["ev"] if e["k"] != "pool")
             if key in seen:
                 continue
@@ -305,10 +312,10 @@ if __name__ == "__main__":
     Cc = [k for k in K if k["valid"] and not k["notif"]]
     always = [("2", [a, b], nw) for a in N for b in N + Cc[:1] for nw in (1, 2)]
     for (sv, kinds, nw) in always[part::nparts]:
-        traces += explore(sv, kinds, nw, bound, maxruns, rnd, policy="high")
+        traces += explore(sv, kinds, nw, bound, maxruns, rnd, policy="high", dks=["custom", "custom"])
         traces += explore(sv, kinds, nw, bound, maxruns, rnd, policy="low")
     for (sv, kinds, nw) in combos[:budget][part::nparts]:
-        traces += explore(sv, kinds, nw, bound, maxruns, rnd)
+        traces += explore(sv, kinds, nw, bound, maxruns, rnd, dks=[rnd.choice(["default", "custom"]) for _ in kinds])
         if nw:
             traces += explore(sv, kinds, 1 if rnd.random() < 0.5 else nw, bound, maxruns, rnd, policy="high")
         for _ in range(3):
@@ -317,7 +324,7 @@ if __name__ == "__main__":
     # three handlers, random schedules
     for _ in range(20 if tier == "quick" else 300):
         kinds = [rnd.choice(K) for _ in range(3)]
-        tr, _c = run_plan(rnd.choice("12"), kinds, rnd.choice([0, 1, 2]), {}, rnd=rnd)
+        tr, _c = run_plan(rnd.choice("12"), kinds, rnd.choice([0, 1, 2]), {}, rnd=rnd, dks=[rnd.choice(["default", "custom"]) for _ in kinds])
         traces.append(tr)
     json.dump(traces, open(out, "w"))
     print(json.dumps({"traces": len(traces), "events": sum(len(t["ev"]) for t in traces), "wall": round(time.time() - t0, 1)}))
